@@ -154,6 +154,27 @@ func (st *State) assume(t *Term) {
 	st.pc = append(st.pc, t)
 }
 
+// constEqs: the equalities "term == constant" of the path condition as a rewrite map.
+func (st *State) constEqs() map[*Term]*Term {
+	var m map[*Term]*Term
+	for _, p := range st.pc {
+		if p.Op != OEq || len(p.Args) != 2 {
+			continue
+		}
+		a, b := p.Args[0], p.Args[1]
+		if a.Op == OConst && b.Op != OConst {
+			a, b = b, a
+		}
+		if b.Op == OConst && a.Op != OConst && a.S.Kind == SBV {
+			if m == nil {
+				m = map[*Term]*Term{}
+			}
+			m[a] = b
+		}
+	}
+	return m
+}
+
 // knows reports whether t is literally part of the path condition.
 func (st *State) knows(t *Term) bool {
 	if t.Op == OAnd {
